@@ -50,12 +50,13 @@ CLAIMED = {
     "C02": ("executable Coq model of every decoder (Raw, CopyRect, RRE, CoRRE, Hextile walk, ZRLE tile walk over the inflated stream, "
             "cursor, desktop-size, last-rect, QEMU key) run against the real client on streams produced by an RFC 6143 encoder written "
             "independently; the real client's screen must equal the encoder's framebuffer, its commits the updates sent, and a trailing "
-            "Bell must be seen last (exact consumption); theorems: continuation-form round trips for Raw, CopyRect, RRE and CoRRE rectangles "
-            "and for whole updates mixing any number of them (begin, every callback once in order, one commit, exact consumption, Bell once "
-            "afterwards), termination/landing of every decoder (C15), chunk invariance (C01); round trips for Hextile/ZRLE/cursor are not "
-            "proved (PARTIAL, see DESIGN.md 9.2)",
+            "Bell must be seen last (exact consumption); theorems: continuation-form round trips for Raw, CopyRect, RRE, CoRRE, Hextile, "
+            "ZRLE (over the inflated tile stream, 3-byte CPIXELs, packed palettes with unpadded rows) and cursor rectangles, for whole "
+            "updates mixing them (begin, every callback once in order, one commit, exact consumption, Bell once afterwards), and from "
+            "callbacks to the C12 reference canvas; the padded-packed-rows ZRLE finding is a refutation theorem with a 3x2 witness; "
+            "termination/landing of every decoder (C15), chunk invariance (C01)",
             "zlib is an oracle tape; Pillow modelled; two ZRLE defects are recorded known findings; strict hextile carry-over reading",
-            "Coq model + partial proofs; decided mainly by differential correspondence against an independent RFC 6143 encoder (translation-validation style)"),
+            "Coq proofs (per-encoding round trips by induction over tiles/subrectangles/runs) + differential correspondence against an independent RFC 6143 encoder"),
     "C12": ("Coq model of the slice of Pillow the client uses (new/paste with clipping/frombytes raw modes/1-bit mask) and of "
             "updateRectangle/updateDesktopSize/updateCursor; theorems: for every accepted history of updates, size changes and (nocursor) "
             "cursor updates from a fresh client the screen equals the reference canvas pixel for pixel and in size (induction over the "
@@ -96,7 +97,7 @@ CLAIMED = {
             "ServerInit); theorems about the parser: it never spins on any byte string (potential argument), handlers are local, a raise "
             "is chunk-independent and time-independent, a session of the seven message kinds with any field values never raises under any chunking "
             "and timing so that exactly the viewer's bytes are forwarded once and in order (relay theorem), and the logging client never "
-            "raises on server sessions of Raw/CopyRect/RRE/CoRRE updates, bells and cut texts; the real proxy pair is driven on in-memory "
+            "raises on server sessions of Raw/CopyRect/RRE/CoRRE/Hextile/cursor updates, bells and cut texts; the real proxy pair is driven on in-memory "
             "transports with causal interleavings of both directions cut at random: after every chunk each leg must have received "
             "exactly the bytes sent so far and nothing may raise; several connections on one factory (shared stream, per-connection "
             "files); the parser and the logging client are compared with the Coq models",
